@@ -19,6 +19,7 @@ A == Trace[l]
 TReset == IsEvent("Reset") /\ store' = [k \in Keys |-> None] /\ org' = [k \in Keys |-> "none"] /\ last' = <<"Reset">> /\ n' = 0
 TNext == \/ TReset
          \/ IsEvent("SetLeaf") /\ A[3] \in LeafSet /\ SetLeaf(A[2], A[3])
+         \/ IsEvent("SetBig") /\ A[3] \in 1..Len(BigCat) /\ SetBig(A[2], A[3])
          \/ IsEvent("SetEmpty") /\ A[3] \in EmptyKinds /\ SetEmpty(A[2], A[3])
          \/ IsEvent("Wrap") /\ A[4] \in Members /\ Wrap(A[2], A[3], A[4])
          \/ IsEvent("Collect") /\ Collect(A[2], A[3], A[4])
